@@ -1,0 +1,19 @@
+//go:build verif
+
+package car
+
+import (
+	"io"
+
+	internalio "github.com/ipld/go-car/v2/internal/io"
+)
+
+// VerifSetWriteHook installs the write hook of the verification build (see internal/io/verif_on.go).
+func VerifSetWriteHook(h func(w io.WriterAt, off int64, b []byte) (n int, err error, handled bool)) {
+	internalio.VerifWriteHook = h
+}
+
+// VerifSetTraceHook installs the trace hook of the verification build (see internal/io/verif_on.go).
+func VerifSetTraceHook(h func(w any, kind string, off int64, b []byte)) {
+	internalio.VerifTraceHook = h
+}
